@@ -1236,6 +1236,14 @@ Section Walk.
       unfold nb_block, o1 in Hnb; prj. rewrite A, B in Hnb. cbn [length] in Hnb. lia.
   Qed.
 
+  (* D48: the object is not empty (0 < L): the early completion of attach_fdt is not taken *)
+  Lemma d48_step_di weak o c : DIc weak o c -> d48_step o c = (o, c).
+  Proof.
+    intros D. destruct (d_meta _ _ _ D) as [(_ & A & _)|(x & _ & _ & C)].
+    - unfold d48_step. rewrite A. reflexivity.
+    - apply (d48_step_nonempty o c L C). lia.
+  Qed.
+
   Theorem or_attach_di id i o c : Pre o c -> DIx false o c -> GoodI i ->
     DIx false (snd (fst (or_attach E id (fi_files i) (fi_oti i) o c))) (snd (or_attach E id (fi_files i) (fi_oti i) o c)).
   Proof.
@@ -1246,7 +1254,8 @@ Section Walk.
     destruct (Gi f Efind) as (F1 & F2 & F3 & F4).
     assert (G0 : forall o1, DIc false o1 c /\ (0 < nb_block o1 -> Par o1) -> Pre o1 c ->
       let x := (let o2 := init_partition o1 in
-                let (o3, c3) := init_writer E o2 c in
+                let (o3a, c3a) := init_writer E o2 c in
+                let (o3, c3) := d48_step o3a c3a in
                 let (o4, c4) := push_from_cache E o3 c3 in
                 let '(o5, c5) := match write_blocks E (S (length (r_blocks o4))) 0 o4 c4 with
                                  | (ROk x, cx) => (x, cx)
@@ -1260,6 +1269,7 @@ Section Walk.
       pose proof (init_writer_di o2 c (e_pre _ _ _ _ X2) D2) as D3.
       pose proof (init_writer_ext E o2 c (e_pre _ _ _ _ X2)) as X3. unfold ExtP in X3.
       destruct (init_writer E o2 c) as [o3 c3]. cbn [fst snd] in D3, X3.
+      rewrite (d48_step_di false o3 c3 (proj1 D3)).
       pose proof (pfc_di o3 c3 (e_pre _ _ _ _ X3) D3) as D4.
       pose proof (push_from_cache_ext E o3 c3 (e_pre _ _ _ _ X3)) as X4. unfold ExtP in X4.
       destruct (push_from_cache E o3 c3) as [o4 c4]. cbn [fst snd] in D4, X4.
